@@ -767,3 +767,280 @@ Proof.
 Qed.
 
 End Star.
+
+(* ================================================================== *)
+(* 7.6 the leader's commit index                                       *)
+(* ================================================================== *)
+
+Lemma send_append_to_log r to r' : send_append_to r to = Ok r' -> r_log r' = r_log r.
+Proof.
+  unfold send_append_to. intros H. destruct (get_pr r to); [|discriminate].
+  inv_bind H. destruct x as [[r1 p1] b]. inversion H; subst r'.
+  apply maybe_send_append_facts in Hx. destruct Hx as (A & _).
+  change (r_log (put_pr r1 to p1)) with (r_log r1). apply msgs_only_log. exact A.
+Qed.
+
+Lemma for_each_peer_log (g : raft -> N -> Res raft) :
+  (forall r id r', g r id = Ok r' -> r_log r' = r_log r) ->
+  forall ids self r r', for_each_peer ids self g r = Ok r' -> r_log r' = r_log r.
+Proof.
+  intros Hg. induction ids as [|id rest IH]; intros self r r' H.
+  { inversion H; reflexivity. }
+  cbn [for_each_peer] in H. destruct (id =? self). { eapply IH; eassumption. }
+  inv_bind H. rewrite (IH _ _ _ H). eapply Hg; eassumption.
+Qed.
+
+Lemma bcast_append_log r r' : bcast_append r = Ok r' -> r_log r' = r_log r.
+Proof. unfold bcast_append. apply for_each_peer_log. apply send_append_to_log. Qed.
+
+Lemma send_append_aggressively_log r to r' : send_append_aggressively r to = Ok r' -> r_log r' = r_log r.
+Proof.
+  unfold send_append_aggressively. intros H. destruct (get_pr r to); [|discriminate].
+  inv_bind H. destruct x as [r1 p1]. inversion H; subst r'.
+  apply (send_append_aggressively_loop_matched _ _ to) in Hx. destruct Hx as [A _].
+  change (r_log (put_pr r1 to p1)) with (r_log r1). apply msgs_only_log. exact A.
+Qed.
+
+Lemma maybe_commit_log r r1 cmt :
+  maybe_commit r = Ok (r1, cmt) ->
+  RaftLog.maybe_commit (r_log r) (fst (prs_maximal_committed_index (r_prs r))) (r_term r)
+    = Ok (r_log r1, cmt).
+Proof.
+  unfold maybe_commit. intros H. inv_bind H. destruct x as [l' b]. rewrite Hx. destruct b.
+  - destruct (get_pr r (r_id r)); inversion H; subst; reflexivity.
+  - inversion H; subst. reflexivity.
+Qed.
+
+(* the tail of an advancing acknowledgement: maybe_commit, then operations that leave the
+   log alone *)
+Lemma ack_tail_log r m op r' :
+  ack_tail r m op = Ok r' ->
+  exists r1 cmt, maybe_commit r = Ok (r1, cmt) /\ r_log r' = r_log r1.
+Proof.
+  unfold ack_tail. intros H. inv_bind H. destruct x as [r1 cmt]. exists r1, cmt.
+  split; [exact Hx|]. inv_bind H. inv_bind H.
+  assert (E1 : r_log x = r_log r1).
+  { destruct cmt.
+    - destruct (should_bcast_commit r1); [apply bcast_append_log; exact Hx0|congruence].
+    - destruct op; [eapply send_append_to_log; exact Hx0|congruence]. }
+  apply send_append_aggressively_log in Hx1.
+  assert (E3 : r_log r' = r_log x0).
+  { destruct (r_lead_transferee x0) as [t|]; [|congruence].
+    destruct (t =? m_from m); [|congruence].
+    destruct (get_pr x0 (m_from m)); [|discriminate].
+    destruct (_ =? _); [|congruence].
+    unfold send_timeout_now in H. apply send_msgs_only in H. apply msgs_only_log. exact H. }
+  congruence.
+Qed.
+
+Lemma log_maybe_commit_facts lg q t lg' b :
+  RaftLog.maybe_commit lg q t = Ok (lg', b) ->
+  committed lg <= committed lg' /\
+  (committed lg' = committed lg \/ (committed lg' = q /\ q <= last_index lg)) /\
+  (RaftLog.term lg q = Ok (SOk t) -> committed lg <= q -> committed lg' = q).
+Proof.
+  unfold RaftLog.maybe_commit. intros H.
+  destruct (committed lg <? q) eqn:E.
+  - inv_bind H. destruct (term_ok_eq x t) eqn:Et.
+    + inv_bind H. inversion H; subst lg' b; clear H. unfold RaftLog.commit_to in Hx0.
+      destruct (q <=? committed lg) eqn:E1; [lia|].
+      destruct (last_index lg <? q) eqn:E2; [discriminate|]. inversion Hx0; subst x0. cbn.
+      split; [lia|]. split; [right; split; [reflexivity|lia]|]. auto.
+    + inversion H; subst lg' b. split; [lia|]. split; [left; reflexivity|].
+      intros Ht. rewrite Ht in Hx. inversion Hx; subst x. cbn in Et. rewrite N.eqb_refl in Et. discriminate.
+  - inversion H; subst lg' b. split; [lia|]. split; [left; reflexivity|]. intros _ Hle. lia.
+Qed.
+
+Lemma maybe_decr_to_matched p rej hint rs :
+  matched (fst (maybe_decr_to p rej hint rs)) = matched p.
+Proof.
+  unfold maybe_decr_to. destruct (pstate_eqb (pr_state p) Replicate).
+  - destruct (_ || _); [reflexivity|]. destruct (rs =? INVALID_INDEX); reflexivity.
+  - destruct (_ && _); [reflexivity|]. cbn [fst].
+    destruct (rs =? INVALID_INDEX); [reflexivity|].
+    destruct (pending_request_snapshot p =? INVALID_INDEX); reflexivity.
+Qed.
+
+Lemma become_probe_matched p : matched (become_probe p) = matched p.
+Proof. unfold become_probe. destruct (pr_state p); reflexivity. Qed.
+
+Lemma maybe_update_matched_noop p n : n <= matched p -> matched (fst (maybe_update p n)) = matched p.
+Proof.
+  intros H. unfold maybe_update. destruct (matched p <? n) eqn:E; [lia|]. cbn [fst].
+  destruct (next_idx p <? n + 1); reflexivity.
+Qed.
+
+(* what a leader of term T does with a response, as far as log and matched are concerned:
+   either nothing, or (advancing acknowledgement) the acknowledging peer's matched goes up
+   and maybe_commit runs on the result *)
+Lemma leader_resp_cases T L m L' c :
+  T <> 0 -> r_state L = Leader -> r_term L = T -> m_term m = T ->
+  (m_type m = MsgAppendResponse \/ (m_type m = MsgHeartbeatResponse /\ m_context m = [])) ->
+  step L m = Ok (L', c) ->
+  conf_of L' = conf_of L /\
+  ((r_log L' = r_log L /\ same_matched L L') \/
+   (exists pg pr2 r1 cmt,
+      get_pr L (m_from m) = Some pg /\ matched pg < matched pr2 /\
+      (forall id p, id <> m_from m -> get_pr L id = Some p ->
+                    get_pr (put_pr L (m_from m) pr2) id = Some p) /\
+      maybe_commit (put_pr L (m_from m) pr2) = Ok (r1, cmt) /\
+      r_log L' = r_log r1 /\ same_matched (put_pr L (m_from m) pr2) L')).
+Proof.
+  intros HT Hs Ht Hm Hty H.
+  destruct (step_leader_same_term T HT L m Hs Ht Hm) as [EA EH].
+  destruct Hty as [Hty|[Hty Hctx]].
+  - rewrite (EA Hty) in H. inv_bind H. inversion H; subst x c; clear H.
+    split; [apply handle_append_response_fr in Hx; apply Hx|].
+    destruct (get_pr L (m_from m)) as [pg|] eqn:Hgg.
+    2:{ unfold handle_append_response in Hx. inv_bind Hx. rewrite Hgg in Hx.
+        assert (L' = L) by congruence. subst L'. left. split; [reflexivity|apply same_matched_refl]. }
+    destruct (m_reject m) eqn:Hrj.
+    + left. rewrite (append_reject_eq L m pg Hgg Hrj) in Hx. inv_bind Hx.
+      pose proof (maybe_decr_to_matched (ack_pr pg (m_commit m)) (m_index m) x (m_request_snapshot m)) as Hmd.
+      pose proof (ack_pr_fields pg (m_commit m)) as (_ & _ & A3 & _).
+      destruct (maybe_decr_to _ _ _ _) as [p1 dec]. cbn [fst] in Hmd. destruct dec.
+      * split.
+        { rewrite (send_append_to_log _ _ _ Hx). reflexivity. }
+        eapply same_matched_trans; [|eapply send_append_to_matched; exact Hx].
+        eapply same_matched_put; [exact Hgg|].
+        destruct (pstate_eqb (pr_state p1) Replicate); [rewrite become_probe_matched|]; congruence.
+      * inversion Hx; subst L'. split; [reflexivity|].
+        eapply same_matched_put; [exact Hgg|congruence].
+    + rewrite (append_ack_eq L m pg Hgg Hrj) in Hx. cbv zeta in Hx.
+      pose proof (ack_pr_fields pg (m_commit m)) as (_ & _ & A3 & _).
+      destruct (matched pg <? m_index m) eqn:Elt.
+      * right. apply N.ltb_lt in Elt. inv_bind Hx. rename x into pr2.
+        pose proof (acked_pr_fields _ _ _ ltac:(rewrite A3; exact Elt) Hx0) as (F1 & _).
+        destruct (ack_tail_log _ _ _ _ Hx) as (r1 & cmt & Hmc & Hlog).
+        exists pg, pr2, r1, cmt. split; [reflexivity|]. split; [lia|].
+        split; [intros id p Hne Hp; rewrite get_pr_put_other by exact Hne; exact Hp|].
+        split; [exact Hmc|]. split; [exact Hlog|]. eapply ack_tail_matched. exact Hx.
+      * left. apply N.ltb_ge in Elt. inversion Hx; subst L'. split; [reflexivity|].
+        eapply same_matched_put; [exact Hgg|].
+        transitivity (matched (ack_pr pg (m_commit m))); [|exact A3].
+        apply maybe_update_matched_noop. rewrite A3. exact Elt.
+  - rewrite (EH Hty) in H. inv_bind H. inversion H; subst x c; clear H.
+    split; [apply handle_heartbeat_response_fr in Hx; apply Hx|]. left.
+    destruct (get_pr L (m_from m)) as [pg|] eqn:Hgg.
+    2:{ unfold handle_heartbeat_response in Hx. rewrite Hgg in Hx.
+        assert (L' = L) by congruence. subst L'. split; [reflexivity|apply same_matched_refl]. }
+    destruct (heartbeat_response_unsticks L m pg L' Hgg Hx)
+      as (pr1 & r1 & pr' & b & _ & _ & _ & _ & _ & _ & _ & _ & _ & _ & _ & S2 & S3 & G1 & G2 & T1 & _).
+    split.
+    + rewrite (ro_only_log _ _ T1). change (r_log (put_pr r1 (m_from m) pr')) with (r_log r1).
+      apply msgs_only_log. exact S2.
+    + intros id. destruct (N.eq_dec id (m_from m)) as [->|Hne].
+      * rewrite G1, Hgg. cbn. congruence.
+      * rewrite (G2 id Hne). reflexivity.
+Qed.
+
+(* --- the quorum index when every voter has the same matched --- *)
+
+Lemma gc_loop_all_eq q : forall ms checked single,
+  Forall (fun m : Index => fst m = q) ms -> fst (gc_loop q q checked single ms) = q.
+Proof.
+  induction ms as [|m t IH]; intros checked single Hall; cbn [gc_loop].
+  - destruct single; reflexivity.
+  - pose proof (Forall_inv Hall) as Hm. pose proof (Forall_inv_tail Hall) as Ht. cbn beta in Hm.
+    destruct (snd m =? 0); [apply IH; exact Ht|].
+    destruct (checked =? 0); [apply IH; exact Ht|].
+    destruct (checked =? snd m); [apply IH; exact Ht|]. cbn [fst]. rewrite Hm. lia.
+Qed.
+
+Lemma committed_index_all_eq gc V a q :
+  V <> [] -> (forall v, In v V -> fst (acked_or_default a v) = q) ->
+  fst (Quorum.committed_index gc V a) = q.
+Proof.
+  intros HV Hall. unfold Quorum.committed_index. destruct V as [|v0 t] eqn:EV; [congruence|].
+  rewrite <- EV in *. clear EV.
+  set (ms := sort_desc (map (acked_or_default a) V)).
+  assert (Hms : Forall (fun m : Index => fst m = q) ms).
+  { apply Forall_forall. intros m Hm. subst ms.
+    apply (Permutation.Permutation_in _ (QuorumProofs.sort_desc_perm _)) in Hm.
+    apply in_map_iff in Hm. destruct Hm as (v & <- & Hv). apply Hall. exact Hv. }
+  assert (Hlen : length ms = length V).
+  { subst ms. rewrite QuorumProofs.sort_desc_length, map_length. reflexivity. }
+  assert (Hpos : (0 < length ms)%nat) by (rewrite Hlen; destruct V; [congruence|cbn; lia]).
+  assert (Hq : fst (nth (majority (length ms) - 1) ms index_default) = q).
+  { rewrite Forall_forall in Hms. apply Hms. apply nth_In. apply QuorumProofs.majority_pos_lt. exact Hpos. }
+  assert (Hl : fst (last ms index_default) = q).
+  { rewrite Forall_forall in Hms. apply Hms. apply QuorumProofs.last_In. intros E. rewrite E in Hpos. cbn in Hpos. lia. }
+  destruct (negb gc); [exact Hq|].
+  rewrite Hq, Hl. apply gc_loop_all_eq. exact Hms.
+Qed.
+
+Lemma assoc_progress_map (g : progress -> Index) m v :
+  assoc (map (fun kp : N * progress => (fst kp, g (snd kp))) m) v = option_map g (pget m v).
+Proof.
+  induction m as [|[k p] t IH]; cbn [map assoc pget fst snd]; [reflexivity|].
+  destruct (k =? v); [reflexivity|exact IH].
+Qed.
+
+(* every voter's Progress has matched = q *)
+Definition all_voters_at (r : raft) (q : N) : Prop :=
+  forall v, In v (incoming (conf_of r)) \/ In v (outgoing (conf_of r)) ->
+    exists p, get_pr r v = Some p /\ matched p = q.
+
+Lemma mci_all_at r q :
+  all_voters_at r q -> incoming (conf_of r) <> [] -> q <= u64_max ->
+  fst (prs_maximal_committed_index (r_prs r)) = q.
+Proof.
+  intros Hall Hinc Hq. unfold prs_maximal_committed_index, Quorum.maximal_committed_index,
+    joint_committed_index, acked_of.
+  set (a := assoc _).
+  assert (Ha : forall v, In v (incoming (t_conf (r_prs r))) \/ In v (outgoing (t_conf (r_prs r))) ->
+                         fst (acked_or_default a v) = q).
+  { intros v Hv. destruct (Hall v Hv) as (p & Hg & Hm). unfold acked_or_default. subst a.
+    rewrite (assoc_progress_map (fun p0 => (matched p0, commit_group_id p0))). unfold get_pr in Hg. rewrite Hg. cbn. exact Hm. }
+  pose proof (committed_index_all_eq (t_group_commit (r_prs r)) (incoming (t_conf (r_prs r))) a q Hinc
+                ltac:(intros v Hv; apply Ha; left; exact Hv)) as Hi.
+  destruct (Quorum.committed_index _ (incoming _) a) as [i_idx i_gc]. cbn [fst] in Hi. subst i_idx.
+  destruct (outgoing (t_conf (r_prs r))) as [|o0 ot] eqn:Eo.
+  - rewrite QuorumProofs.committed_index_empty. cbn [fst]. lia.
+  - rewrite <- Eo in *.
+    pose proof (committed_index_all_eq (t_group_commit (r_prs r)) (outgoing (t_conf (r_prs r))) a q
+                  ltac:(rewrite Eo; discriminate) ltac:(intros v Hv; apply Ha; right; exact Hv)) as Ho.
+    destruct (Quorum.committed_index _ (outgoing _) a) as [o_idx o_gc]. cbn [fst] in *. subst o_idx. lia.
+Qed.
+
+Lemma all_voters_at_same r r' q :
+  conf_of r' = conf_of r -> same_matched r r' -> all_voters_at r' q -> all_voters_at r q.
+Proof.
+  intros Hc Hs Hall v Hv. rewrite <- Hc in Hv. destruct (Hall v Hv) as (p & Hg & Hm).
+  specialize (Hs v). rewrite Hg in Hs. cbn in Hs. destruct (get_pr r v) as [p0|]; [|discriminate].
+  exists p0. split; [reflexivity|]. cbn in Hs. congruence.
+Qed.
+
+(* the commit invariant of the leader: its commit index is at most [last], and equals it
+   as soon as every voter's matched does *)
+Definition CommitInv (last : N) (L : raft) : Prop :=
+  committed (r_log L) <= last /\ (all_voters_at L last -> committed (r_log L) = last).
+
+(* one response handled by the leader keeps the commit invariant *)
+Lemma leader_step_CommitInv T last L m L' c :
+  T <> 0 -> r_state L = Leader -> r_term L = T -> m_term m = T ->
+  (m_type m = MsgAppendResponse \/ (m_type m = MsgHeartbeatResponse /\ m_context m = [])) ->
+  last_index (r_log L) = last -> last <= u64_max ->
+  RaftLog.term (r_log L) last = Ok (SOk T) ->
+  incoming (conf_of L) <> [] ->
+  CommitInv last L -> step L m = Ok (L', c) ->
+  CommitInv last L' /\ committed (r_log L) <= committed (r_log L').
+Proof.
+  intros HT Hs Ht Hm Hty Hlast Hu Hterm Hinc [C1 C2] H.
+  destruct (leader_resp_cases T L m L' c HT Hs Ht Hm Hty H)
+    as (Hconf & [(Hlog & Hsm)|(pg & pr2 & r1 & cmt & Hg & Hlt & Hoth & Hmc & Hlog & Hsm)]).
+  - unfold CommitInv. rewrite Hlog. split; [|lia]. split; [exact C1|]. intros Hall. apply C2.
+    eapply all_voters_at_same; eassumption.
+  - set (ra := put_pr L (m_from m) pr2) in *.
+    pose proof (maybe_commit_log _ _ _ Hmc) as Hml.
+    change (r_log ra) with (r_log L) in Hml. change (r_term ra) with (r_term L) in Hml.
+    destruct (log_maybe_commit_facts _ _ _ _ _ Hml) as (M1 & M2 & M3).
+    unfold CommitInv. rewrite Hlog. split; [|exact M1]. split.
+    + destruct M2 as [M2|[M2 M2']]; [lia|]. rewrite M2. rewrite Hlast in M2'. exact M2'.
+    + intros Hall.
+      assert (Hall_a : all_voters_at ra last).
+      { eapply all_voters_at_same; [|exact Hsm|exact Hall]. exact Hconf. }
+      assert (Hinc_a : incoming (conf_of ra) <> []) by exact Hinc.
+      rewrite (mci_all_at ra last Hall_a Hinc_a Hu) in M3. rewrite Ht in M3.
+      apply M3; [exact Hterm|exact C1].
+Qed.
